@@ -17,7 +17,7 @@ MODELLED_PC_SCHEMES = {"marlin"}
 def is_modelled(c):
     if c.kind in MODELLED_KINDS:
         return True
-    if c.kind == "pc":
+    if c.kind in ("pc", "c08"):
         return c.fields.get("scheme", [""])[0] in MODELLED_PC_SCHEMES and "beta" in c.fields
     return False
 
